@@ -112,6 +112,21 @@ def caller(x, l):
   return ('caller', r, s)
 
 
+def make_dual(which):
+  # two definitions with the same file and qualified name, different code
+  if which:
+    def dual(x, l):
+      if x == 1:
+        l.append('one')
+      return ('dual-a', x + K)
+  else:
+    def dual(x, l):
+      if x == 1:
+        l.append('uno')
+      return ('dual-b', x * 2 - K)
+  return dual
+
+
 def bad(x, l):
   for i in range(x):
     l.append(i)
@@ -258,6 +273,13 @@ def build_universe(lane, u):
   add('a.box2.m', box2.m, self_obj=box2, group='m')
   add('a.caller', a.caller, group='caller', calls=('cal_target', 'helper'))
   add('a.bad', a.bad, group='bad', rejects=True)
+  # callees of a.caller, also requested directly (first converted as a callee, then on request - or the reverse)
+  add('a.cal_target', a.cal_target, group='caller')
+  add('a.helper', a.helper, group='caller')
+  duals = [a.make_dual(True), a.make_dual(False)]
+  lists['duals'] = duals
+  add('a.dual@if', duals[0], group='dual')
+  add('a.dual@else', duals[1], droppable=True, dropper=del_item(duals, 1), group='dual')
   # harness ids for code objects (identity, never id() at comparison time)
   codes = []
   for e in E:
@@ -662,7 +684,7 @@ def make_plan(seed, index, tier, sub):
   u = seed % 4 if tier == 'quick' else (seed * 7 + index % 4) % 64
   nfn = 18
   # focus: a few groups per run so that requests collide on cache entries
-  groups = [[0, 1, 8], [2, 3, 4, 9], [5, 6, 7], [10, 11], [12, 13], [14, 15], [16], [17]]
+  groups = [[0, 1, 8], [2, 3, 4, 9], [5, 6, 7], [10, 11], [12, 13], [14, 15], [16, 18, 19], [17], [20, 21]]
   k = rng.choice([1, 1, 2, 2, 3])
   chosen = rng.sample(groups, k)
   fids = sorted(set(f for g in chosen for f in g))
@@ -717,7 +739,7 @@ def make_plan(seed, index, tier, sub):
       what = rng.choice(['defaults', 'kwdefaults']) if o['fid'] in (5, 6, 7) else 'code'
       threads[t]['ops'].insert(j + 1, {'op': 'mutate', 'fid': o['fid'], 'what': what, 'then': then})
   events = []
-  droppable = [f for f in fids if f in (0, 1, 3, 4, 6, 7, 8, 9, 10, 13)]
+  droppable = [f for f in fids if f in (0, 1, 3, 4, 6, 7, 8, 9, 10, 13, 21)]
   nev = rng.choice([0, 1, 1, 2, 3]) if nthreads > 1 or rng.random() < 0.5 else 0
   for _ in range(nev):
     t = rng.randrange(nthreads)
